@@ -350,8 +350,8 @@ def run_conserve(case, ctx):
     sim = rb.new_sim({"G": sysd["G"], "particles": boosted(sysd["particles"], bst, sysd["P_min"])})
     apply_cfg(sim, cfg)
     dirn = -1.0 if case["back"] else 1.0
-    if fam == "trace" and dirn < 0 and ctx.finding_open("C08-trace-backward"):
-        ctx.excluded("C08-trace-backward")
+    if fam == "trace" and dirn < 0 and ctx.finding_open("C04-trace-backward"):
+        ctx.excluded("C04-trace-backward")
         sim.ri_trace.S_peri = "none"
     sim.dt = dirn * case["dt_frac"] * sysd["P_min"]
     if fam == "ias15" and cfg["fixed_step"]:
